@@ -5,6 +5,7 @@ import (
 	"bytes"
 	"encoding/json"
 	"fmt"
+	"io"
 	"log/slog"
 	"os"
 	"path/filepath"
@@ -48,9 +49,12 @@ type timeCase struct {
 	StartNs    int  `json:"start_extra_ns,omitempty"` // sub-millisecond part of the start time
 	// ViaFile: the recorded bytes go through the file handler (the way the applications
 	// read them), with this end-of-file tolerance in its configuration (0 = none)
-	ViaFile   bool      `json:"via_file_handler,omitempty"`
-	FileTolMs uint      `json:"file_handler_eof_tolerance_ms,omitempty"`
-	Msgs      []timeMsg `json:"msgs"`
+	ViaFile   bool `json:"via_file_handler,omitempty"`
+	FileTolMs uint `json:"file_handler_eof_tolerance_ms,omitempty"`
+	// the source takes this long to supply its first byte (a serial line opened before
+	// the device sends): the start time is the one that was given, not a later one
+	FirstByteDelayMs int       `json:"first_byte_after_ms,omitempty"`
+	Msgs             []timeMsg `json:"msgs"`
 }
 
 func zoneOf(name string) *time.Location {
@@ -164,7 +168,11 @@ func execTime(c *child.Ctx, k timeCase, cj []byte, sigPrefix string) {
 			}
 			ch := make(chan handler.Message, 4)
 			fh := filehandler.New(ch, cfg)
-			go fh.Handle(start, bufio.NewReader(bytes.NewReader(all)))
+			var src io.Reader = bytes.NewReader(all)
+			if k.FirstByteDelayMs > 0 {
+				src = &slowStart{r: src, d: time.Duration(k.FirstByteDelayMs) * time.Millisecond}
+			}
+			go fh.Handle(start, bufio.NewReader(src))
 			done := make(chan struct{})
 			var msgs []handler.Message
 			go func() {
@@ -257,6 +265,21 @@ func execTime(c *child.Ctx, k timeCase, cj []byte, sigPrefix string) {
 	if k.ViaFile {
 		c.Count("histories_through_the_file_handler", 1)
 	}
+}
+
+// slowStart delays the first read.
+type slowStart struct {
+	r    io.Reader
+	d    time.Duration
+	done bool
+}
+
+func (s *slowStart) Read(p []byte) (int, error) {
+	if !s.done {
+		s.done = true
+		sleepTicking(s.d)
+	}
+	return s.r.Read(p)
 }
 
 // streamThrough runs one HandleMessages call of the given handler over the bytes.
@@ -510,6 +533,14 @@ func genHistoryAt(r *ref.SplitMix64, anyStartInWeek bool, forced *time.Time) (ti
 		if r.Chance(1, 2) {
 			k.FileTolMs = 25
 		}
+		if r.Chance(1, 2) {
+			k.FirstByteDelayMs = r.Range(20, 60)
+		}
+	}
+	if k.StartNs > 0 && r.Chance(1, 3) {
+		// a start time in the last instants of a week and a source that is slow to start
+		k.ViaFile, k.ViaStream, k.Split = true, false, 0
+		k.FirstByteDelayMs = r.Range(20, 60)
 	}
 	multi := 0
 	for _, n := range rollovers {
@@ -631,7 +662,20 @@ func genDispCase(r *ref.SplitMix64, id int) dispCase {
 	}
 	var arg string
 	T := day
-	if r.Chance(3, 4) {
+	if r.Chance(1, 5) {
+		// an instant given with its own offset, in the hours around the week boundaries
+		// (Saturday 20:00 UTC to Sunday 04:00 UTC), where the date in that offset and
+		// the date in UTC differ, or the instant lies between two constellations' rollovers
+		sat := day.AddDate(0, 0, 6-int(day.Weekday()))
+		T = sat.Add(20*time.Hour + time.Duration(r.Range(0, 8*3600-1))*time.Second)
+		switch r.Intn(4) {
+		case 0:
+			T = sat.Add(24*time.Hour - time.Duration(r.Range(1, 20))*time.Second) // between the GPS/BeiDou rollovers and midnight
+		case 1:
+			T = sat.Add(21*time.Hour + time.Duration(r.Range(0, 3*3600-1))*time.Second) // after the GLONASS rollover
+		}
+		arg = T.In(time.FixedZone("", r.Range(-11, 13)*3600)).Format(time.RFC3339)
+	} else if r.Chance(3, 4) {
 		arg = day.Format("2006-01-02")
 	} else {
 		offH := r.Range(-11, 13)
